@@ -717,7 +717,7 @@ namespace bxdecay0 {
       double a_eta      = a1 * gsl_pow_2(chi_2plus) + a2 * chi_2plus * chi_1minus + a3 * gsl_pow_2(chi_1minus)
                      + a4 * gsl_pow_2(chip_R) + a5 * chip_R * chip_P + a6 * gsl_pow_2(chip_P);
       double b_eta = gsl_pow_2(et1 - et2) * gsl_pow_2(chi_2plus) / 2. - 4. * gsl_pow_2(chi_1minus) / 81.
-                     + 8. * gsl_pow_2(rksi * chip_P / 6. - chip_R) / gsl_pow_2(r) - 8. * std::pow(chip_P, (2 / 9.));
+                     + 8. * gsl_pow_2(rksi * chip_P / 6. - chip_R) / gsl_pow_2(r) - 8. * gsl_pow_2(chip_P) / 9.;
       if (a_eta != 0.) {
         b = b_eta / a_eta * b1 * b2;
       }
